@@ -407,6 +407,9 @@ func baseSetMetatable(L *LState) int {
 
 func baseToNumber(L *LState) int {
 	base := L.OptInt(2, 10)
+	if base < 2 || base > 36 {
+		L.ArgError(2, "base out of range")
+	}
 
 	switch lv := L.CheckAny(1).(type) {
 	case LNumber:
